@@ -23,12 +23,13 @@ SPEC = dict(
     technique="deterministic simulation with fault injection: fault position sweep over real upgrader/swarm/host stack on simnet",
     design_ref="DESIGN.md section 6 (C04)",
     quick_s=60, thorough_s=900,
-    rule=("stratum TCP | QUIC | QUIC+TCP | WebTransport drawn first; QUIC strata: plan, background UDP faults none|light|heavy, reuseport on|off, payload; TCP: "
+    rule=("stratum TCP | QUIC | QUIC+TCP | WebTransport drawn first; 1 run in 4 is a cold start (no fault-free warm-up: the fault hits the first contact; no goroutine baseline there); QUIC strata: plan, background UDP faults none|light|heavy, reuseport on|off, payload; TCP: "
           "one run = one tape: security noise|tls, PSK on/off, link chunking whole|fragmented, payload 64|2000|70000 B and one "
           "fault plan; non-trivial = the planned fault actually fired; distinct = distinct (configuration, fault plan, attempt "
           "outcome)"),
     probes=["outcome-connect-failed", "outcome-stream-failed", "outcome-echo-failed", "outcome-ok",
             "quic-outcome-connect-failed", "quic-outcome-stream-failed", "quic-outcome-echo-failed", "quic-outcome-ok",
+            "cold-start-outcome-connect-failed", "cold-start-outcome-stream-failed", "cold-start-outcome-echo-failed", "cold-start-outcome-ok",
             "shared-tcp-outcome-connect-failed", "shared-tcp-outcome-stream-failed", "shared-tcp-outcome-echo-failed", "shared-tcp-outcome-ok",
             "webtransport-outcome-connect-failed", "webtransport-outcome-stream-failed", "webtransport-outcome-echo-failed", "webtransport-outcome-ok"],
     real=["ALL of the following run as tasks of the seeded scheduler (instrumented: every lock, channel operation, select, go statement is a scheduling point)", "basic host, identify", "swarm (dial, listen, conns, streams)", "tcp transport dial path (WithDialerForAddr)",
